@@ -2,7 +2,8 @@
 # run_seed.sh <seed-name> <PID> [tier] : apply a kept seeded change to /repo, run the check, undo.
 name=$1; pid=$2; tier=${3:-quick}
 cd /repo && git apply /verif/seeded/$name/patch.diff || { echo "patch does not apply"; exit 2; }
+cp /verif/evidence/$pid.json /tmp/evidence_backup_$pid.json 2>/dev/null
 cd /verif && /venv/bin/python run_check.py $pid --tier $tier > /tmp/seedrun_${name}_$pid.log 2>&1; rc=$?
 git -C /repo checkout -- .
-git -C /verif checkout -- evidence 2>/dev/null
+cp /tmp/evidence_backup_$pid.json /verif/evidence/$pid.json 2>/dev/null
 echo "seed=$name check=$pid rc=$rc $(grep -c '^VIOLATION' /tmp/seedrun_${name}_$pid.log) violation-line(s); $(tail -2 /tmp/seedrun_${name}_$pid.log | head -1 | cut -c1-300)"
